@@ -117,6 +117,7 @@ pub fn bfs(ctx: &mut Ctx) {
             }
             let id = ctx.next_id;
             ctx.next_id += 1;
+            ctx.mark_case(id);
             // sharded by the first action of the history (the whole subtree stays in one worker)
             let f0 = if depth == 0 { ai } else { first };
             let mine = match ctx.only {
